@@ -334,7 +334,7 @@ impl Prop for C19Prop {
         "C19"
     }
     fn rule(&self) -> String {
-        "Literals: exhaustive over digit strings of length <=5 on {0,1,5,9} with the point at every position (incl. first and last) and leading/trailing zero variants; boundary literals (2^53-8..2^53+6 with .0/.5/.4999…/.5000…1 tails, exact halfway points between adjacent doubles and their neighbours one unit above/below for a set of anchors incl. min/max normal and subnormal, 1e22/1e23, full expansions up to ~770 digits, 309/310-digit overflow and 324..430-digit underflow literals, i64::MAX, 28-significant-digit decimals at every scale, Decimal::MAX); random digit runs of 1..400 digits with a random point. Each literal is evaluated by every evaluator that can hold it (and as Li in eval_complex). Oracles: f64/complex/number-with-point: the returned double is verified to be the nearest double (ties to even) by exact big-integer cross-multiplication against both neighbouring midpoints; i64 / number-without-point: exact integer, Integer variant; decimal: exact (coefficient, scale) value. Round trip: boundary pools, random bit patterns and results of random expressions of eval_f64, eval_i64 (not MIN), eval_decimal, eval_complex: Display text re-evaluated must give the same value (f64 bits; complex/decimal/i64 ==). non-trivial = literal with >=16 significant digits, or a point in first/last position, or leading zeros; round-trip value whose text has >=15 digits; distinct by (evaluator, text).".into()
+        "Literals: exhaustive over digit strings of length <=5 on {0,1,5,9} with the point at every position (incl. first and last) and leading/trailing zero variants; boundary literals (2^53-8..2^53+6 with .0/.5/.4999…/.5000…1 tails, exact halfway points between adjacent doubles and their neighbours one unit above/below for a set of anchors incl. min/max normal and subnormal, 1e22/1e23, full expansions up to ~770 digits, 309/310-digit overflow and 324..430-digit underflow literals, i64::MAX, 28-significant-digit decimals at every scale, Decimal::MAX); random digit runs of 1..400 digits with a random point. Each literal is evaluated by every evaluator that can hold it (and as Li in eval_complex). Oracles: f64/complex/number-with-point: the returned double is verified to be the nearest double (ties to even) by exact big-integer cross-multiplication against both neighbouring midpoints; i64 / number-without-point: exact integer, Integer variant; decimal: exact (coefficient, scale) value. Round trip: boundary pools, random bit patterns and results of random expressions of eval_f64, eval_i64 (not MIN), eval_decimal, eval_complex: Display text re-evaluated must give the same value (f64 bits; complex/decimal/i64 ==); a quarter of the round trips are preceded on the same thread by a literal the lexer rejects (1.2.3, 1..5, 12.., 1e5 ...). non-trivial = literal with >=16 significant digits, or a point in first/last position, or leading zeros; round-trip value whose text has >=15 digits; distinct by (evaluator, text).".into()
     }
     fn assumptions(&self) -> Vec<String> {
         vec!["harness/src/big.rs (self-tested) is trusted for the correct-rounding oracle".into()]
@@ -365,6 +365,11 @@ impl Prop for C19Prop {
         }
         let mut case = Case::new(ev, api::display(&v), Val::default_for(ev));
         case.aux = vec!["roundtrip".into(), v.enc()];
+        if c.below(4) == 0 {
+            // a literal the lexer rejects is evaluated first on the same thread: the reading of the next literal must
+            // not depend on it (literal scanners with a reused buffer)
+            case.aux.push(["1.2.3", "1..5", "3.14.15", ".", "12..", "0x10", "1e5", "1_000", "7.", ".5.", "99999999999999999999999999999999999999999.9.9"][c.below(11) as usize].to_string());
+        }
         Some(case)
     }
     fn check(&self, sub: &str, case: &Case, sc: &mut ShardCtx) -> Result<(), Failure> {
@@ -374,6 +379,10 @@ impl Prop for C19Prop {
                 Some(v) => v,
                 None => return Ok(()),
             };
+            if let Some(prelude) = case.aux.get(2) {
+                let _ = eval_normal(sc, ev, prelude, &case.ph);
+                sc.class("roundtrip after a rejected literal");
+            }
             let o = match eval_normal(sc, ev, &case.input, &case.ph) {
                 Some(o) => o,
                 None => return Ok(()),
